@@ -5,11 +5,13 @@ import NucsProofs.Propagators.CountEq
 import NucsProofs.Propagators.Counting
 import NucsProofs.Propagators.Dummy
 import NucsProofs.Propagators.Element
+import NucsProofs.Propagators.ExactOfSupport
 import NucsProofs.Propagators.GccReg
 import NucsProofs.Propagators.Lex
 import NucsProofs.Propagators.MinMax
 import NucsProofs.Propagators.NoSubCycle
 import NucsProofs.Propagators.Scc
+import NucsProofs.Propagators.SupportCertProofs
 
 /-!
   C05 — filtering never removes a value that takes part in a solution.
